@@ -3,7 +3,7 @@
    read in the ideal interpretation IR over the real numbers (Sem.v).  Proofs are in Proofs*.v. *)
 From Coq Require Import Reals List Bool ZArith.
 From Common Require Import CxxSem.
-From C06 Require Import GenLin Sem ProofsLin ProofsRot ProofsQuat ProofsBranch ProofsSlerp ProofsFrame ProofsNonvac.
+From C06 Require Import GenLin Sem ProofsLin ProofsRot ProofsQuat ProofsBranch ProofsSlerp ProofsFrame Ortho ProofsOrtho ProofsNonvac.
 Local Open Scope R_scope.
 
 Theorem inverse2_mul :
@@ -321,6 +321,79 @@ Theorem frame_orthonormal :
   Y = cross3 N X.
 Proof. exact ProofsFrame.frame_orthonormal. Qed.
 Print Assumptions frame_orthonormal.
+
+Theorem ortho_step_def :
+  forall a b c d,
+  ostep (rows2 a b c d) =
+  rows2 (1 / 2 * (a + d / (a * d - b * c))) (1 / 2 * (b + - c / (a * d - b * c)))
+        (1 / 2 * (c + - b / (a * d - b * c))) (1 / 2 * (d + a / (a * d - b * c))).
+Proof. exact ProofsOrtho.ortho_step_def. Qed.
+Print Assumptions ortho_step_def.
+
+Theorem orthogonal_fixpoint :
+  forall (m : M2),
+  det2 m <> 0 -> ostep m = m -> mul2 (transposed2 m) m = one2 /\ mul2 m (transposed2 m) = one2.
+Proof. exact ProofsOrtho.orthogonal_fixpoint. Qed.
+Print Assumptions orthogonal_fixpoint.
+
+Theorem ortho_step_det_pos :
+  forall (m : M2),
+  0 < det2 m -> 0 < det2 (ostep m).
+Proof. exact ProofsOrtho.ortho_step_det_pos. Qed.
+Print Assumptions ortho_step_det_pos.
+
+Theorem ortho_step_polar :
+  forall (c s p q r : R),
+  c * c + s * s = 1 -> p * r - q * q <> 0 ->
+  ostep (mul2 (rows2 c (- s) s c) (rows2 p q q r)) = mul2 (rows2 c (- s) s c) (ostep (rows2 p q q r)).
+Proof. exact ProofsOrtho.ortho_step_polar. Qed.
+Print Assumptions ortho_step_polar.
+
+Theorem ortho_step_spd :
+  forall (p q r : R),
+  0 < p -> 0 < p * r - q * q ->
+  exists p' q' r', ostep (rows2 p q q r) = rows2 p' q' q' r' /\ 0 < p' /\ 0 < p' * r' - q' * q'.
+Proof. exact ProofsOrtho.ortho_step_spd. Qed.
+Print Assumptions ortho_step_spd.
+
+Theorem ortho_iter_invariant :
+  forall (P : M2 -> Prop),
+  (forall m, P m -> P (ostep m)) -> forall n m, P m -> P (ortho_iter IR n m).
+Proof. exact ProofsOrtho.ortho_iter_invariant. Qed.
+Print Assumptions ortho_iter_invariant.
+
+Theorem ortho_iter_polar :
+  forall (c s : R) (n : nat) (p q r : R),
+  c * c + s * s = 1 -> 0 < p -> 0 < p * r - q * q ->
+  exists p' q' r', ortho_iter IR n (mul2 (rows2 c (- s) s c) (rows2 p q q r)) = mul2 (rows2 c (- s) s c) (rows2 p' q' q' r')
+                   /\ 0 < p' /\ 0 < p' * r' - q' * q'.
+Proof. exact ProofsOrtho.ortho_iter_polar. Qed.
+Print Assumptions ortho_iter_polar.
+
+Theorem orthogonal_mirror :
+  forall (n : nat) (m : M2),
+  det2 m < 0 -> orthogonal_n IR n m = negx (orthogonal_n IR n (negx m)).
+Proof. exact ProofsOrtho.orthogonal_mirror. Qed.
+Print Assumptions orthogonal_mirror.
+
+Theorem orthogonal_no_mirror :
+  forall (n : nat) (m : M2),
+  0 <= det2 m -> orthogonal_n IR n m = ortho_iter IR n m.
+Proof. exact ProofsOrtho.orthogonal_no_mirror. Qed.
+Print Assumptions orthogonal_no_mirror.
+
+Theorem orthogonal_mirror_Q_ok :
+  m2_eqbQ (orthogonal_n IQ 99 m_test) (neg_vx IQ (orthogonal_n IQ 99 (neg_vx IQ m_test))) = true /\
+  polar_trace_pos (orthogonal_n IQ 99 m_test) m_test = true.
+Proof. exact ProofsOrtho.orthogonal_mirror_Q_ok. Qed.
+Print Assumptions orthogonal_mirror_Q_ok.
+
+Theorem orthogonal_mirror_old_refuted :
+  exists m, ortho_mirrored IQ m = true /\
+            m2_eqbQ (orthogonal_n_old IQ 99 m) (neg_vx IQ (orthogonal_n IQ 99 (neg_vx IQ m))) = false /\
+            polar_trace_pos (orthogonal_n_old IQ 99 m) m = false.
+Proof. exact ProofsOrtho.orthogonal_mirror_old_refuted. Qed.
+Print Assumptions orthogonal_mirror_old_refuted.
 
 Example nonvac_inverse :
   det3 (rows3 2 1 0 0 1 3 0 0 1) <> 0 /\ det2 (rows2 2 1 0 1) <> 0.
